@@ -19,6 +19,9 @@ open ThermoVerif.Chemicals
 inductive Leaf where
   | str (s : String)
   | ell
+  /-- a sequence nested deeper than a key can meaningfully be (depth ≥ 3); all that matters
+  about it is whether it can be hashed (no list inside) -/
+  | deep (hashable : Bool)
   deriving Repr, DecidableEq, Inhabited
 
 /-- An element of a top-level sequence. -/
@@ -47,9 +50,19 @@ inductive HKey where
   | tup (l : List HItem)
   deriving Repr, DecidableEq, Inhabited
 
+def Leaf.unhashable : Leaf → Bool
+  | .deep false => true
+  | _ => false
+
+/-- the element cannot be hashed as it stands (a list, or a list somewhere inside) -/
 def Item.isLst : Item → Bool
   | .lst _ => true
-  | _ => false
+  | .tup l => l.any Leaf.unhashable
+  | .leaf a => a.unhashable
+
+def HItem.unhashable : HItem → Bool
+  | .leaf a => a.unhashable
+  | .tup l => l.any Leaf.unhashable
 
 def Item.toH : Item → HItem
   | .leaf a => .leaf a
@@ -69,11 +82,11 @@ def normC : PyKey → Except Err HKey
   | .lst l => if l.any Item.isLst then .error .typeError else .ok (.tup (l.map Item.toH))
 
 /-- `MaterialIndexer._get_index_data`: unhashable keys are retried with every inner
-list turned into a tuple. -/
-def normM : PyKey → HKey
-  | .leaf a => .leaf a
-  | .tup l => .tup (l.map Item.toH)
-  | .lst l => .tup (l.map Item.toH)
+list turned into a tuple (one level); a list further down still cannot be hashed (`TypeError`). -/
+def normM : PyKey → Except Err HKey
+  | .leaf a => .ok (.leaf a)
+  | .tup l => if (l.map Item.toH).any HItem.unhashable then .error .typeError else .ok (.tup (l.map Item.toH))
+  | .lst l => if (l.map Item.toH).any HItem.unhashable then .error .typeError else .ok (.tup (l.map Item.toH))
 
 /-- `IDs` part of a `(phase, IDs)` key, as a key of its own. -/
 def HItem.toKey : HItem → HKey
@@ -115,6 +128,7 @@ def resolveC (c : Chem) : HKey → Except Err Ix
     | .pos i => pure (.one i)
     | .grp is => pure (.grp is)
   | .leaf .ell => .ok .all
+  | .leaf (.deep _) => .error .undefinedAlias
   | .tup l => do
     let es ← lookupItems c l
     if es.any Ent.isGrp then pure (.nested es) else pure (.arr (entsPos es))
@@ -172,6 +186,7 @@ def phaseOfFirst (phases : List Char) : HItem → Except Err (Option Nat)
     | .ok p => .ok (some p)
     | .error e => .error e
   | .leaf .ell => .ok none
+  | .leaf (.deep _) => .error .indexError
   | .tup _ => .error .indexError
 
 /-- `(phase_index, chemical_index)`; with the ellipsis for `IDs` the phase alone
@@ -189,6 +204,7 @@ def resolvePhase (c : Chem) (phases : List Char) : HKey → Except Err MIx
     | .ok p => .ok (.row p)
     | .error e => .error e
   | .leaf .ell => .ok .whole
+  | .leaf (.deep _) => .error .indexError
   | .tup [] => .error .indexError
   | .tup [first, ids] =>
     match phaseOfFirst phases first with
@@ -215,6 +231,8 @@ inductive Val where
   | scalar (x : Rat)
   | vec (xs : List Rat)
   | mat (rows : List (List Rat))
+  /-- object array of a `SplitIndexer` read through a nested key: scalars and member vectors -/
+  | nest (items : List (Sum Rat (List Rat)))
   deriving Repr, DecidableEq, Inhabited
 
 abbrev Row := List Rat
@@ -348,12 +366,40 @@ def setIx (c : Chem) (row : Row) (ix : Ix) (k : HKey) (d : Data) : Except Err Ro
   | .arr is, .scalar x => .ok (writeAll row is x)
   | .arr is, .vec xs => .ok (writeZip row is xs)
 
+/-- kind 2 with 1-d data that is too short: the elements before the missing one have been
+written when `data[n]` raises. -/
+def nestedPrefix (c : Chem) (k : HKey) (xs : List Rat) : Row → Nat → List Ent → Row
+  | row, _, [] => row
+  | row, n, .pos i :: t =>
+    match xs[n]? with
+    | none => row
+    | some x => nestedPrefix c k xs (setAt row i x) (n + 1) t
+  | row, n, .grp is :: t =>
+    match xs[n]? with
+    | none => row
+    | some x =>
+      match compOf c (itemName (keyItem k n)) with
+      | .error _ => row
+      | .ok comp => nestedPrefix c k xs (writeZip row is (comp.map (x * ·))) (n + 1) t
+
+/-- kind 2 with a scalar: the elements before a group element without composition (a second
+name of a group entered by a failed `set_alias`) have been written when the `KeyError` comes. -/
+def nestedScalarPrefix (c : Chem) (k : HKey) (x : Rat) : Row → Nat → List Ent → Row
+  | row, _, [] => row
+  | row, n, .pos i :: t => nestedScalarPrefix c k x (setAt row i x) (n + 1) t
+  | row, n, .grp is :: t =>
+    match compOf c (itemName (keyItem k n)) with
+    | .error _ => row
+    | .ok comp => nestedScalarPrefix c k x (writeZip row is (comp.map (x * ·))) (n + 1) t
+
 /-- State of the row after a *failed* `setIx`: `reset_sparse_chemical_data` clears the
-row before it looks at the shape of the data; every other failure happens before any write
-(for the modelled domain). -/
-def setIxFail (row : Row) (ix : Ix) (d : Data) : Row :=
+row before it looks at the shape of the data; a nested key with too few data has written a
+prefix; every other failure happens before any write. -/
+def setIxFail (c : Chem) (row : Row) (ix : Ix) (k : HKey) (d : Data) : Row :=
   match ix, d with
   | .all, .mat => row.map fun _ => 0
+  | .nested es, .vec xs => nestedPrefix c k xs row 0 es
+  | .nested es, .scalar x => if x = 0 then row else nestedScalarPrefix c k x row 0 es
   | _, _ => row
 
 def setRowAt (data : List Row) (p : Nat) (r : Row) : List Row := data.set p r
@@ -439,11 +485,121 @@ def setM (c : Chem) (data : List Row) (mix : MIx) (k : HKey) (d : Data) : Except
     | .nested _, .scalar _ => .error .typeError
     | .nested es, .vec xs => writeNestedAllPhases c k xs data 0 es
 
+/-- `[..., nested] = data` with too few data: prefix written in every phase. -/
+def nestedAllPrefix (c : Chem) (k : HKey) (xs : List Rat) : List Row → Nat → List Ent → List Row
+  | data, _, [] => data
+  | data, n, .pos i :: t =>
+    match xs[n]? with
+    | none => data
+    | some x => nestedAllPrefix c k xs (data.map fun r => setAt r i x) (n + 1) t
+  | data, n, .grp is :: t =>
+    match xs[n]? with
+    | none => data
+    | some x =>
+      match compOf c (itemName (keyItem k n)) with
+      | .error _ => data
+      | .ok comp =>
+        if comp.length ≠ is.length then data else
+        nestedAllPrefix c k xs (data.map fun r => writeZip r is (comp.map (x * ·))) (n + 1) t
+
 /-- State of the data after a *failed* `setM` (see `setIxFail`). -/
-def setMFail (data : List Row) (mix : MIx) (d : Data) : List Row :=
+def setMFail (c : Chem) (data : List Row) (mix : MIx) (k : HKey) (d : Data) : List Row :=
   match mix, d with
   | .row p, .mat => setRowAt data p ((data.getD p []).map fun _ => 0)
-  | .sub (some p) .all, .mat => setRowAt data p ((data.getD p []).map fun _ => 0)
+  | .sub (some p) ix, d => setRowAt data p (setIxFail c (data.getD p []) ix k d)
+  | .sub none (.nested es), .vec xs => nestedAllPrefix c k xs data 0 es
   | _, _ => data
+
+/-! ### `SplitIndexer`: the same keys, but a group stands for its members (no composition) -/
+
+/-- `SplitIndexer.__getitem__` after key resolution. -/
+def getSplit (row : Row) : Ix → Val
+  | .one i => .scalar (getAt row i)
+  | .grp is => .vec (is.map (getAt row))
+  | .nested es => .nest (es.map fun e => match e with
+      | .pos i => .inl (getAt row i)
+      | .grp is => .inr (is.map (getAt row)))
+  | .arr is => .vec (is.map (getAt row))
+  | .all => .vec row
+
+def splitNestedScalar (row : Row) (x : Rat) : List Ent → Row
+  | [] => row
+  | .pos i :: t => splitNestedScalar (setAt row i x) x t
+  | .grp is :: t => splitNestedScalar (writeAll row is x) x t
+
+/-- kind 2 with 1-d data: element `n` of the data goes to element `n` of the key (to every member
+of a group); `(row, false)` when the data ran out (`data[n]` raises after a prefix was written). -/
+def splitNestedVec (xs : List Rat) : Row → Nat → List Ent → Row × Bool
+  | row, _, [] => (row, true)
+  | row, n, .pos i :: t =>
+    match xs[n]? with
+    | none => (row, false)
+    | some x => splitNestedVec xs (setAt row i x) (n + 1) t
+  | row, n, .grp is :: t =>
+    match xs[n]? with
+    | none => (row, false)
+    | some x => splitNestedVec xs (writeAll row is x) (n + 1) t
+
+/-- `SplitIndexer.__setitem__` after key resolution: the new row, and the error if it raised
+(the row then shows what had been written before). -/
+def setSplit (row : Row) (ix : Ix) (d : Data) : Row × Option Err :=
+  match ix, d with
+  | .all, .mat => (row.map fun _ => 0, some .indexError)
+  | .all, .scalar x => (row.map fun _ => x, none)
+  | .all, .vec xs => ((List.range row.length).map fun i => xs.getD i 0, none)
+  | .one i, .scalar x => (setAt row i x, none)
+  | .one _, _ => (row, some .indexError)
+  | .grp is, .scalar x => (writeAll row is x, none)
+  | .grp is, .vec xs => (writeZip row is xs, none)
+  | .grp _, .mat => (row, some .indexError)
+  | .nested es, .scalar x => (splitNestedScalar row x es, none)
+  | .nested es, .vec xs =>
+    match splitNestedVec xs row 0 es with
+    | (r, true) => (r, none)
+    | (r, false) => (r, some .indexError)
+  | .nested _, .mat => (row, some .typeError)
+  | .arr is, .scalar x => (writeAll row is x, none)
+  | .arr is, .vec xs => (writeZip row is xs, none)
+  | .arr _, .mat => (row, some .indexError)
+
+/-! ### Name-keyed construction of arrays, and views in other units -/
+
+def zeroRow (size : Nat) : Row := List.replicate size 0
+
+/-- `array[index] = data` of NumPy for a list index: a scalar or a one-element sequence is
+broadcast, otherwise the lengths must agree. -/
+def fancyAssign (row : Row) (is : List Nat) : Data → Except Err Row
+  | .scalar x => .ok (writeAll row is x)
+  | .vec [x] => .ok (writeAll row is x)
+  | .vec xs => if xs.length = is.length then .ok (writeZip row is xs) else .error .valueError
+  | .mat => .error .valueError
+
+/-- `chemicals.array(IDs, data)` / `kwarray` after resolution of `tuple(IDs)`. -/
+def arrayOf (size : Nat) (ix : Ix) (d : Data) : Except Err Row :=
+  match ix with
+  | .arr is => fancyAssign (zeroRow size) is d
+  | .one i => fancyAssign (zeroRow size) [i] d
+  | .grp _ => .error .valueError
+  | .nested _ => .error .valueError
+  | .all => .error .indexError
+
+def splitNested (row : Row) : List Ent → List Rat → Row
+  | .pos i :: t, x :: xs => splitNested (setAt row i x) t xs
+  | .grp is :: t, x :: xs => splitNested (writeAll row is x) t xs
+  | _, _ => row
+
+/-- `chemicals.split(IDs, data)` / `kwsplit`: as `array`, but a group name stands for all its
+members (each gets the group's datum). -/
+def splitOf (size : Nat) (ix : Ix) (d : Data) : Except Err Row :=
+  match ix, d with
+  | .nested es, .vec xs => .ok (splitNested (zeroRow size) es xs)
+  | .nested _, _ => .error .typeError
+  | .grp is, d => fancyAssign (zeroRow size) is d
+  | .all, _ => .error .indexError
+  | ix, d => arrayOf size ix d
+
+/-- A mass (or any per-chemical factor) view of molar data: `MassFlowDict`. -/
+def scaleRow (f : List Rat) (row : Row) : Row := mulList row f
+def unscaleRow (f : List Rat) (row : Row) : Row := divList row f
 
 end ThermoVerif.Indexer
